@@ -157,6 +157,12 @@ def run_incremental(scn, sched_tape, stop_factory=None, step_cap=None, lenient=F
         it = res.subsequent_results
         k = 0
         while True:
+            if (stop is not None and getattr(stop, "close_delay", False)
+                    and stop.kind == "aclose" and k == stop.close_after):
+                # the consumer closes some time after payload k, not in the very step it arrived
+                rr.waiting = "gate"
+                await sim.external(f"gate:{i}:close", "gate", ("value", None), owner=i).fut
+                rr.waiting = None
             if stop is not None and stop.close_now(k):
                 rr.waiting = "aclose"
                 rr.stopped = True
